@@ -694,8 +694,13 @@ func genExtent(e *common.Env, g *gen) {
 				}
 				if !e.Thorough {
 					// quick: three declared lengths per combination
+					// (and always the right one, direct: lengths 0, 1, ... with every
+					// separator before endstream, none included)
 					r.Shuffle(len(decls), func(i, j int) { decls[i], decls[j] = decls[j], decls[i] })
-					decls = decls[:3]
+					decls = append(decls[:3], strconv.Itoa(n))
+					if r.IntN(4) == 0 {
+						decls = append(decls, "indirect")
+					}
 				}
 				for _, d := range decls {
 					id := g.id("L")
@@ -1144,7 +1149,7 @@ func runMode(shardFile string, shard, nshards int) {
 	runFilterChains(e, shard, nshards)
 	runExtent(e, gdir, shard, nshards)
 
-	e.Finish("a history case is non-trivial when it has at least two revisions (a /Prev chain is followed), distinct by rendered file; a decoder case when it decodes without error; a /Length case when the hypotheses of the clause hold (body without trailing EOL and without EOL+endstream; declared length absent, negative, unresolvable, right, or wrong and not in front of white space + endstream)",
+	e.Finish("a history case is non-trivial when it has at least two revisions (a /Prev chain is followed), distinct by rendered file; a decoder case when it decodes without error; a /Length case when the hypotheses of a clause hold (right /Length: any data, any or no white space before endstream; otherwise data without EOL+endstream, not ending in CR before a bare LF, an EOL before endstream, declared length absent, negative, unresolvable, or wrong and not in front of white space + endstream)",
 		map[string]any{"files_satisfying_theorem_hypotheses": hypOK, "files_outside_wf_chain": hypBad, "files_with_subsection_1_n_free_65535": tripped, "files_with_hidden_objects": hidden, "files_satisfying_read_render_side_conditions": rrOK})
 }
 
@@ -1636,6 +1641,12 @@ func hypothesesHold(body, e0, e1 []byte, decl string, after []byte) bool {
 	// eol before the data: LF or CRLF; after: LF, CR or CRLF
 	if !(bytes.Equal(e0, []byte("\n")) || bytes.Equal(e0, []byte("\r\n"))) {
 		return false
+	}
+	// a correct /Length (direct, or in another object): the data are the declared bytes
+	// whatever they contain and whatever white space - or none - precedes endstream
+	// (Prop_C04.stream_extent_declared)
+	if decl == "indirect" || decl == strconv.Itoa(len(body)) {
+		return len(bytes.TrimLeft(e1, "\x00\t\n\f\r ")) == 0
 	}
 	if !(bytes.Equal(e1, []byte("\n")) || bytes.Equal(e1, []byte("\r")) || bytes.Equal(e1, []byte("\r\n"))) {
 		return false
